@@ -294,6 +294,12 @@ impl EnfWorld {
                 "e.deluser" => res_b(rt.block_on(async { with_e!(e, x => x.delete_user(&unesc(f[1])).await) })),
                 "e.delrole" => res_b(rt.block_on(async { with_e!(e, x => x.delete_role(&unesc(f[1])).await) })),
                 "e.delperm" => res_b(rt.block_on(async { with_e!(e, x => x.delete_permission(sv(f[1])).await) })),
+                "e.rolematch" => {
+                    // implementation only: pattern role / domain names (outside the Lean role-graph model)
+                    let pick = |n: &str| -> Option<casbin::MatchingFn> { match n { "keyMatch" => Some(casbin::function_map::key_match), "keyMatch2" => Some(casbin::function_map::key_match2), _ => None } };
+                    with_e!(&*e, x => x.get_role_manager().write().matching_fn(pick(f[1]), pick(f[2])));
+                    "ok".into()
+                }
                 "e.clear" => res_u(rt.block_on(async { with_e!(e, x => x.clear_policy().await) })),
                 "e.load" => res_u(rt.block_on(async { with_e!(e, x => x.load_policy().await) })),
                 "e.loadc" => { let r = res_u(rt.block_on(async { with_e!(e, x => x.load_policy().await) })); if r.starts_with("err") { "err".into() } else { r } }
